@@ -13,7 +13,8 @@ CONSTANTS MaxC, MaxR,      \* shapes explored: 0..MaxC x 0..MaxR
           Emit,            \* print CASE lines
           Walk,            \* TRUE: random-walk mode (tlc -simulate), cases printed at depth WalkLen
           WalkLen,
-          EmitOps          \* only transitions whose call is in this set are printed ({} = all)
+          EmitOps,         \* only transitions whose call is in this set are printed ({} = all)
+          Faults           \* subset of {"iter", "clone", "default", "drop", "cmp", "forget"}: fault transitions explored
 
 VARIABLES phase, grid, handle, held, nextId, hist
 vars == <<phase, grid, handle, held, nextId, hist>>
@@ -84,6 +85,71 @@ AFromView  == \E sc \in Edge(C), sr \in Edge(R), ec \in Edge(C), er \in Edge(R) 
                  Do("from_view", [s |-> <<sc, sr>>, e |-> <<ec, er>>], 0)
 AConsume   == \E op \in {"into_vec", "into_box", "into_iter", "drop"} : Do(op, NoArg, 0)
 
+(***************************************************************************)
+(* Fault transitions (C11, C12).  Layer A does not determine the state     *)
+(* after a caught panic in caller code or after a leaked drain - it only   *)
+(* constrains it (PostFaultOK in TooDee.tla) - so the behaviour ends in    *)
+(* the terminal phase "faulted"; the emitted case carries what the         *)
+(* relation needs (cells before, values supplied) and the conformance      *)
+(* harness records what the real code left behind, which TLC then judges   *)
+(* in TooDeeTrace.tla together with the rest of the history.               *)
+(***************************************************************************)
+DoFault(op, a, fault, supplied, nfresh) ==
+    /\ Enabled(St, op)
+    /\ phase' = "faulted" /\ grid' = << >> /\ handle' = NoHandle /\ held' = held
+    /\ nextId' = nextId + nfresh
+    /\ hist' = Append(hist, [op |-> op, a |-> a, fault |-> fault, pre |-> Flat(grid), supplied |-> supplied,
+                            x |-> [res |-> Unit, obs |-> FALSE, nc |-> 0, nr |-> 0, data |-> << >>, held |-> held]])
+    /\ Emit => PrintT(<<"CASE", ToJson([fam |-> "hist", steps |-> hist'])>>)
+
+PanicAt(site, k) == [kind |-> "panic_at", site |-> site, k |-> k, lie |-> "none"]
+Lie(how)         == [kind |-> "lie", site |-> "none", k |-> 0, lie |-> how]
+Forget           == [kind |-> "forget", site |-> "none", k |-> 0, lie |-> "none"]
+Cells == C * R
+
+\* caller-supplied element iterators: the k-th next()/next_back()/len() panics, or len() lies
+FIter == /\ "iter" \in Faults
+         /\ \/ \E op \in {"insert_row", "push_row"}, i \in Edge(R) :
+                 LET n == IF grid = << >> THEN 2 ELSE C
+                     a == IF op = "insert_row" THEN [index |-> Min2(i, R), items |-> Fresh(n)] ELSE [items |-> Fresh(n)] IN
+                 \/ \E k \in 0..n : DoFault(op, a, PanicAt("next", k), Fresh(n), n)
+                 \/ \E k \in 0..1 : DoFault(op, a, PanicAt("len", k), Fresh(n), n)
+                 \/ \E how \in {"minus1", "plus1", "max"} : DoFault(op, a, Lie(how), Fresh(n), n)
+            \/ \E op \in {"insert_col", "push_col"}, i \in Edge(C) :
+                 LET n == IF grid = << >> THEN 2 ELSE R
+                     a == IF op = "insert_col" THEN [index |-> Min2(i, C), items |-> Fresh(n)] ELSE [items |-> Fresh(n)] IN
+                 \/ \E k \in 0..n : DoFault(op, a, PanicAt("next_back", k), Fresh(n), n)
+                 \/ \E k \in 0..1 : DoFault(op, a, PanicAt("len", k), Fresh(n), n)
+                 \/ \E how \in {"minus1", "plus1", "max"} : DoFault(op, a, Lie(how), Fresh(n), n)
+\* Clone panics at its k-th call
+FClone == /\ "clone" \in Faults
+          /\ \/ \E k \in 0..Cells : DoFault("fill", [v |-> nextId], PanicAt("clone", k), <<nextId>>, 1)
+             \/ \E k \in 0..Cells : DoFault("clone", NoArg, PanicAt("clone", k), << >>, 0)
+             \/ \E k \in 0..Cells : DoFault("from_view", [s |-> <<0, 0>>, e |-> <<C, R>>], PanicAt("clone", k), << >>, 0)
+             \/ \E nc \in 1..MaxC, nr \in 1..MaxR : \E k \in 0..(nc * nr) :
+                   DoFault("init", [nc |-> nc, nr |-> nr, v |-> nextId], PanicAt("clone", k), <<nextId>>, 1)
+FDefault == /\ "default" \in Faults
+            /\ \E nc \in 1..MaxC, nr \in 1..MaxR : \E k \in 0..(nc * nr) : DoFault("new", [nc |-> nc, nr |-> nr], PanicAt("default", k), << >>, 0)
+\* an element destructor panics at its k-th call
+FDrop == /\ "drop" \in Faults
+         /\ \/ \E op \in {"clear", "drop"}, k \in 0..Cells : DoFault(op, NoArg, PanicAt("drop", k), << >>, 0)
+            \/ \E k \in 0..Cells : DoFault("fill", [v |-> nextId], PanicAt("drop", k), <<nextId>>, 1)
+            \/ Cells > 0 /\ DoFault("set", [c |-> 0, r |-> 0, v |-> nextId], PanicAt("drop", 0), <<nextId>>, 1)
+            \/ handle.kind # "none" /\ \E k \in 0..(Len(handle.items) - handle.f - handle.b) : DoFault("d_drop", NoArg, PanicAt("drop", k), << >>, 0)
+\* the comparator panics at its k-th call
+FCmp == /\ "cmp" \in Faults
+        /\ \/ \E r \in 0..(R - 1), k \in 0..(2 * C) : DoFault("sort_by_row", [row |-> r], PanicAt("cmp", k), << >>, 0)
+           \/ \E c \in 0..(C - 1), k \in 0..(2 * R) : DoFault("sort_by_col", [col |-> c], PanicAt("cmp", k), << >>, 0)
+\* C12: the outstanding drain / by-value iterator is leaked at its current stage of consumption
+FForget == /\ "forget" \in Faults /\ handle.kind # "none"
+           /\ DoFault("d_forget", NoArg, Forget, << >>, 0)
+\* C12: iterators and views without destructors, leaked after taking some items (array unchanged)
+ALeakBorrow == /\ "forget" \in Faults
+               /\ \E what \in {"rows", "rows_mut", "col", "col_mut", "cells", "cells_mut", "view", "view_mut"}, taken \in {0, 1, 2} :
+                    Do("leak_borrow", [what |-> what, taken |-> taken], 0)
+
+FaultNext == FIter \/ FClone \/ FDefault \/ FDrop \/ FCmp \/ FForget \/ ALeakBorrow
+
 Init == /\ phase = "none" /\ grid = << >> /\ handle = NoHandle /\ held = << >>
         /\ nextId = 1 /\ hist = << >>
 
@@ -92,6 +158,7 @@ Next == \/ CFromVec \/ CInit \/ CNew \/ CDefault \/ CWithCapacity
         \/ ARemoveRow \/ APopRow \/ ARemoveCol \/ APopCol \/ ADrain
         \/ AClear \/ ASwapDims \/ ACapacity \/ AShrink \/ AFill \/ ASet \/ ASwap \/ ASwapRows \/ ASwapCols
         \/ ATranslate \/ AFlip \/ ASortRow \/ ASortCol \/ AClone \/ AFromView \/ AConsume
+        \/ FaultNext
 
 Spec == Init /\ [][Next]_vars
 
